@@ -25,44 +25,78 @@ import textwrap
 from pathlib import Path
 
 ID = "C20"
-LEVEL_TEXT = ("Theorems for every repository state, reference, package content, sequence of loader stages / extension hooks and every "
-              "placement of faults on the git calls (fail or raise, before or after taking effect): load_git restores the repository "
-              "EXACTLY WHEN the placement is benign (iff), no temp dir / checkout is left and HEAD/index/status/tags are untouched for "
-              "every placement whatsoever, check() and arbitrary histories of operations restore likewise, exit code 0 only after a "
-              "comparison without breaking change; the checkout name is a non-empty single path component; Breakage._location strips the worktree prefix; "
-              "returned objects read their lines from the collection only. Model tied to the code by fault-injected differential runs on "
-              "generated repositories and to git by an oracle correspondence on random git step sequences.")
-LEVEL_NOTE = ("Modelled, not verified: git itself (worktree add/remove/prune, branch -D: tied to real git 2.39 by (O)), the file system, "
-              "TemporaryDirectory, the loader (abstracted to a sequence of stages that may write into the checkout or raise); wt_add is "
-              "modelled for an unoccupied path only (real git creates the branch before failing on an occupied one). Excluded by "
-              "hypothesis (no implementation can restore): a cleanup call itself fails or is interrupted. Known finding carried as a "
-              "hypothesis: F2 (`worktree add` takes effect then reports failure). Repaired and now regression cases: --force, F3 (global "
-              "`worktree prune`), F4 (reference normalising to the empty string). Non-ASCII references are outside the normalize model "
-              "(checked directly against the spec only). All 16 theorems are closed under the global context.")
+LEVEL_TEXT = ("24 theorems, all closed under the global context, for every repository state, reference, package content, sequence of "
+              "loader stages / extension hooks and every placement of faults: each git call may fail or raise, before or after taking "
+              "effect, or be TORN (`worktree add` interrupted after `git branch`, `worktree remove` after deleting the directory); the "
+              "removal of the TemporaryDirectory may raise at once, in the middle or on return. load_git restores the repository EXACTLY "
+              "WHEN the placement is benign (iff); every path ends in one of the enumerated final states; the temp dir / checkout is gone "
+              "for every placement exactly when its own removal works; HEAD/index/status/tags are untouched for every placement; check() "
+              "and arbitrary histories restore likewise; exit code 0 only after a comparison without breaking change. For the proposed "
+              "repair of finding F2 (existence test of the temporary branch, `worktree add` inside the try block) the same equivalence "
+              "holds WITHOUT a gap predicate, and the repair never restores less. The checkout name is a non-empty single path "
+              "component; Breakage._location strips the worktree prefix; lines and source of every returned object are the same on "
+              "every file system (the collection stores lines, never a promise to read them). Model tied to the code by fault-injected "
+              "differential runs on generated repositories (in process, and end to end through `python -m griffe check` with a git shim "
+              "that fails, sends SIGINT or tears calls), to git by an oracle correspondence on git step sequences, and the returned "
+              "objects to `git show` with the file system below TMPDIR audited.")
+LEVEL_NOTE = ("Modelled, not verified: git itself (worktree add on free / occupied / registered paths, remove, prune, branch -D: tied to "
+              "real git 2.39 by (O); the ORDER of git's internal effects behind the torn faults is read off builtin/worktree.c and tied "
+              "only for `worktree add` -- a refusal because of the path leaves the branch), the file system, TemporaryDirectory, the "
+              "loader (abstracted to a sequence of stages that may write into the checkout or raise). Excluded by hypothesis (no "
+              "implementation can restore): a cleanup call itself fails, is interrupted or torn; the removal of the temporary directory "
+              "fails. Known finding carried as a hypothesis for the code as it is: F2 (`worktree add` leaves an effect and does not report "
+              "success: hook failure, interruption, torn); the repair is proposed (build/fix-C20), proved for the model variant "
+              "guard=true and checked against the repaired clone with VERIF_C20_GUARD=1. Repaired and now regression cases: --force, "
+              "F3 (global `worktree prune`), F4 (reference normalising to the empty string). Hypothesis `fresh`: mkdtemp's name carries "
+              "no stale worktree registration (the collision case is in the model and the correspondence, outside the theorems). "
+              "Non-ASCII references are outside the normalize model (checked directly against the spec only).")
 MODEL = ("Model.C20_git", "run_C20")
 COQ_TARGETS = ["Proofs/C20_git.vo"]
 RULE = ("seeded repositories (5-8 commits; package present / absent / top-level syntax error / broken submodule; lightweight and annotated "
         "tags; branches with slashes; HEAD on main, on a slash branch or detached; dirty main worktree with untracked, modified, staged "
-        "files and a stash; foreign worktrees healthy / locked-stale); per repository: every reference of a pool (tags, slash branches, "
-        "HEAD, @, HEAD~1, full and abbreviated sha, unknown, ambiguous, existing griffe-<ref> branch) without fault; every single-fault "
-        "placement (4 git calls x fail/raise x before/after, mkdtemp) with clean and dirty body; every loader stage / hook index x "
-        "{Exception, KeyboardInterrupt, write a file}; random multi-fault schedules; check() with faults on both loads, latest-tag "
-        "default and working-tree side; `python -m griffe check` end to end; random git step sequences for the oracle. "
-        "non-trivial = a fault, an event, a non-package content or a non-plain reference; distinct by canonical case value")
+        "files and a stash; foreign worktrees healthy / locked-stale / stale); per repository: every reference of a pool (tags, slash "
+        "branches, HEAD, @, HEAD~1, full and abbreviated sha, unknown, ambiguous, existing griffe-<ref> branch) without fault; every "
+        "single-fault placement (git calls x fail/raise x before/after, torn add / remove with and without exception, mkdtemp, removal of "
+        "the temp dir x at once / torn / on return x OSError / KeyboardInterrupt) with clean and dirty body; pairs of faults; every loader "
+        "stage / hook index x {Exception, KeyboardInterrupt, write a file}; forced inspection (real __pycache__); mkdtemp name collision "
+        "with a stale (locked) registration; random multi-fault schedules; check() with faults on both loads, latest-tag default and "
+        "working-tree side; `python -m griffe check` end to end, plain and with faults from a git shim on PATH (exit codes, SIGINT, torn "
+        "calls) and a CLI extension; returned objects (static and inspected, facade + private sibling) against `git show` under a "
+        "file-system audit; scripted + random git step sequences for the oracle (free, foreign-directory, live, missing-registered and "
+        "locked paths). non-trivial = a fault, an event, a non-package content or a non-plain reference; distinct by canonical case value")
 TRUSTED = ["abstraction: harness reads `git for-each-ref / worktree list --porcelain / status / stash list / ls-files -s` and the TMPDIR "
            "listing into the model's repo record (commits -> indices, directories -> path ids)",
-           "fault injector: a proxy object bound to the name `subprocess` inside _griffe.git, wrappers on GriffeLoader._post_load / "
-           "resolve_aliases and a catch-all Extension",
-           "git 2.39.5 as the authority for the git model"]
-ASSUMPTIONS = ["a git call either takes effect completely or not at all (no torn writes); faults are: non-zero exit or exception, before or after the effect",
+           "fault injector: a proxy for every binding of `subprocess` / its entry points inside _griffe.git, os.mkdir and shutil.rmtree "
+           "for directories directly under TMPDIR, wrappers on GriffeLoader._post_load / resolve_aliases and a catch-all Extension; end to "
+           "end: a `git` shim first on PATH and an extension file given with -e",
+           "torn calls are emulated by their first half as builtin/worktree.c orders it (`git branch B REF`; deletion of the working directory)",
+           "git 2.39.5 as the authority for the git model; `git show <sha>:<path>` as the authority for source lines"]
+ASSUMPTIONS = ["a git call takes effect completely, not at all, or is torn at the one point modelled per command (add: after `git branch`; remove: after "
+               "the directory deletion); faults are: non-zero exit or exception, before or after the effect",
                "mkdtemp returns a name that is fresh with respect to existing temp dirs, checkout dirs and worktree registrations",
-               "every checked-out branch exists (wf) — what git itself maintains",
-               "TemporaryDirectory cleanup itself does not fail"]
+               "every checked-out branch exists (wf) -- what git itself maintains"]
 
 # Which variant of tmp_worktree the model describes: False = the code as it is (`worktree add` before the try block, finding
 # C20-F2 known); True = the proposed repair (existence test of the temporary branch, `worktree add` inside the try block).
-# Flip it when the repair has landed in the tree under test (VERIF_C20_GUARD=1 tries it against a scratch clone).
-GUARD = os.environ.get("VERIF_C20_GUARD", "0") == "1"
+# The repair landed in /repo as f348741.  The variant is read from the tree under test (a fail-closed shape test of tmp_worktree:
+# is `git worktree add` issued inside the try block, after a `git branch --list` existence test?), so that a tree which loses the
+# repair is checked against the model of the unrepaired code -- where F2 is no longer a listed finding and is reported again.
+def _guard_in_source() -> bool:
+    repo = Path(os.environ.get("GRIFFE_REPO", "/repo"))
+    tree = ast.parse((repo / "src" / "_griffe" / "git.py").read_text())
+    fn = next(n for n in ast.walk(tree) if isinstance(n, ast.FunctionDef) and n.name == "tmp_worktree")
+    def has(node, *words):
+        return any(isinstance(c, ast.List) and all(any(isinstance(e, ast.Constant) and e.value == w for e in c.elts) for w in words)
+                   for c in ast.walk(node))
+    tries = [n for n in ast.walk(fn) if isinstance(n, ast.Try)]
+    add_in_try = any(has(ast.Module(body=t.body, type_ignores=[]), "worktree", "add") for t in tries)
+    listed_first = has(fn, "branch", "--list")
+    if add_in_try != listed_first:
+        raise RuntimeError("tmp_worktree has neither the repaired nor the unrepaired shape (worktree add in try: %s, branch --list: %s)" % (add_in_try, listed_first))
+    return add_in_try
+
+
+GUARD = (os.environ["VERIF_C20_GUARD"] == "1") if "VERIF_C20_GUARD" in os.environ else _guard_in_source()
 PKG = "c20pkg"
 ABSENT_PKG = "c20absentpkg"
 GIT_ID = ["-c", "user.name=t", "-c", "user.email=t@t"]
@@ -674,16 +708,25 @@ class Control:
         self.rmtree_calls.append((self.phase, fault[0]))
         if fault[0] == "ok":
             return real(path, *a, **k)
-        swallow = fault[1] == "OSError" and (k.get("ignore_errors") or (a and a[0]))   # shutil.rmtree(ignore_errors=True) semantics
-        if fault[0] == "torn":
-            for name in os.listdir(path):
-                sub = os.path.join(path, name)
-                (real(sub) if os.path.isdir(sub) and not os.path.islink(sub) else os.unlink(sub))
-        elif fault[0] == "raise-after":
+        if fault[0] == "raise-after":
             real(path, *a, **k)
-        if swallow:
-            return None
-        raise make_exc(fault[1])
+            raise make_exc(fault[1])
+        # The fault is placed BELOW shutil.rmtree, at the system call that opens (lstat: nothing gets removed) or closes
+        # (rmdir of the directory itself: its content is gone) the removal, so that it travels through rmtree's own error
+        # handling (onexc / ignore_errors, TemporaryDirectory's handler) exactly as a real failure would.
+        top = os.path.abspath(os.fspath(path))
+        name = "lstat" if fault[0] == "raise-before" else "rmdir"
+        real_os = getattr(os, name)
+
+        def failing(p, *aa, **kk):
+            if isinstance(p, (str, bytes, os.PathLike)) and os.path.abspath(os.fsdecode(p)) == top and kk.get("dir_fd") is None:
+                raise make_exc(fault[1])
+            return real_os(p, *aa, **kk)
+        setattr(os, name, failing)
+        try:
+            return real(path, *a, **k)
+        finally:
+            setattr(os, name, real_os)
 
     # git calls
     def git_call(self, kind, args, kwargs, real):
@@ -1030,6 +1073,17 @@ def run_load_case(env, repo: Repo, case):
     F = case["faults"]
     git_plan = {step: F[i] for step, i in STEP_INDEX.items()}
     ctrl = Control(env, {1: git_plan}, {1: {int(k): v for k, v in case["events"].items()}}, {1: F[1]}, {1: F[RMTREE]})
+    saved_names = tempfile._name_sequence
+    if case.get("collide"):
+        # mkdtemp is made to return a name under which a stale registration (an earlier, interrupted run) still exists
+        fixed = "c20same"
+        tmpname = f"griffe-worktree-{repo.path.name}-{py_checkout_name(ref)}-{fixed}"
+        stale = env.tmp / tmpname / py_checkout_name(ref)
+        git(repo.path, "worktree", "add", "-q", "-b", "user/interrupted", str(stale), repo.commits[0]["sha"])
+        if case["collide"] == "locked":
+            git(repo.path, "worktree", "lock", str(stale))
+        shutil.rmtree(env.tmp / tmpname)
+        tempfile._name_sequence = iter([fixed] + [f"c20other{i}" for i in range(50)])
     before = observe(repo)
     before_abs = abstract(repo, before)
     os.chdir(repo.path)
@@ -1048,12 +1102,14 @@ def run_load_case(env, repo: Repo, case):
         except BaseException as e:  # noqa: BLE001 - KeyboardInterrupt is part of the fault alphabet
             outcome = ["raised", exc_name(e)]
         finally:
+            tempfile._name_sequence = saved_names
             if inspect_mode:
                 sys.dont_write_bytecode = True
                 for name in [m for m in sys.modules if m == PKG or m.startswith(PKG + ".")]:
                     del sys.modules[name]
     os.chdir(env.cwd)
-    pid = repo.fresh_pid()
+    pid = repo.pathids.get("tmp:" + ctrl.tmp_names.get(1, "?")) if case.get("collide") else None
+    pid = pid or repo.fresh_pid()
     if ctrl.tmp_names.get(1):
         repo.bind_tmp(ctrl.tmp_names[1], pid)
     after = observe(repo)
@@ -1129,8 +1185,12 @@ def judge_load(ctx, repo, rec, mout, label):
         ctx.observe("load.class", mcls)
         if mcls != pycls:
             ctx.tie_failure("harness", "classify mirror", {"model": mcls, "python": pycls}, cj)
-        if not mwf or not mfresh:
+        if not mwf or (not mfresh and not case.get("collide")):
             ctx.tie_failure("harness", "generated state violates wf/fresh", {"wf": mwf, "fresh": mfresh}, cj)
+        if case.get("collide"):
+            ctx.observe("load.collision", f"{case['collide']}:fresh={bool(mfresh)}:{rec['outcome'][1]}")
+            if mfresh:
+                ctx.tie_failure("harness", "collision scenario", "mkdtemp did not return the name of the stale registration: scenario not exercised", cj)
         if canon_state(mstate) != rec["after_abs"]:
             ctx.tie_failure("correspondence", "load_git final state (model) vs repository after griffe.load_git",
                             {"diff": state_diff(canon_state(mstate), rec["after_abs"]), "outcome": rec["outcome"]}, cj)
@@ -1147,6 +1207,8 @@ def judge_load(ctx, repo, rec, mout, label):
     if main_changed:
         ctx.property_failure(cj, {"what": "main worktree touched", "diff": main_changed})
     repo_changed = {k: v for k, v in changed.items() if k != "tmp"}
+    if case.get("collide"):
+        repo_changed = {}      # the hypothesis `fresh` of the theorems does not hold: correspondence with the model only
     if repo_changed and not main_changed and not (tmp_left and not rm_failed):
         if cls == "benign" or (cls == "excluded-rmtree-fault" and py_classify(rec["before_abs"], case["ref"], case["faults"][:RMTREE] + [OK], True) == "benign"):
             ctx.property_failure(cj, {"what": "repository not restored", "diff": repo_changed, "outcome": rec["outcome"]})
@@ -2277,6 +2339,9 @@ def explore(ctx):
             run_load_batch(ctx, env, repo, [load_case(r, events={0: ["write"]}, inspect=True, expect=k), load_case(r2, inspect=True, expect=k2, check_pycache=True),
                                             load_case(r2, faults=faults(remove=["fail-after"], rmtree=["raise-after", "KeyboardInterrupt"]), inspect=True, expect=k2)],
                            "inspection-pycache")
+            # a name collision with the stale registration of an interrupted run: `worktree add` on an occupied path
+            r, k = ctx.rng.choice(good)
+            run_load_batch(ctx, env, repo, [load_case(r, collide="stale"), load_case(r, collide="locked", faults=faults(rmtree=["raise-after", "OSError"]))], "collision")
             # two faults at once
             r, k = ctx.rng.choice(good)
             run_load_batch(ctx, env, repo, pair_fault_cases(r, npts[k], ctx.rng), "pair-fault")
@@ -2356,7 +2421,13 @@ def explore(ctx):
         check_normalize(ctx, ctx.budget(300, 3000))
         check_location(ctx, ctx.budget(300, 3000))
         # witnesses of the known findings
-        ctx.witness("C20-F2", witness_f2(env, rep0))
+        if GUARD:       # the repaired variant: the witness of F2 is a regression case that must pass
+            ctx.case({"kind": "regression", "finding": "F2"}, True)
+            if witness_f2(env, rep0):
+                ctx.property_failure({"kind": "regression", "finding": "F2", "repo": rep0.spec()},
+                                     {"what": "a failing post-checkout hook leaves the branch griffe-<ref> and a worktree entry behind"})
+        else:
+            ctx.witness("C20-F2", witness_f2(env, rep0))
         # the witnesses of the repaired findings F3 and F4 are regression cases now: they must not reproduce
         ctx.case({"kind": "regression", "finding": "F3"}, True)
         if witness_f3(env, rep0):
@@ -2458,6 +2529,11 @@ def replay(ctx, data):
             elif kind == "check":
                 rec = run_check_case(env, repo, case)
                 print("outcome :", rec["outcome"], "\nstderr  :", rec["stderr"][-500:])
+                print("changed :", json.dumps(diff_obs(rec["before"], rec["after"]), indent=1))
+            elif kind == "cli-faults":
+                rec = run_cli_fault_case(ctx, env, repo, case)
+                print("rc      :", rec["rc"], "\nstderr  :", rec["stderr"][-500:])
+                print("git log :", rec["log"])
                 print("changed :", json.dumps(diff_obs(rec["before"], rec["after"]), indent=1))
             elif kind == "git-steps":
                 o = OracleRepo(repo, repo.path, env.tmp)
